@@ -20,7 +20,7 @@ from .. import tlc, graph, tracecheck
 from ..impl_encoder import EncoderImpl, SITE, torch
 
 PID = "C19"
-MC_INVS = ["Length", "SilentAtZero", "MinGap", "Saturated", "PrefixGap", "Monotone", "ViableSound", "Complete"]
+MC_INVS = ["Length", "SilentAtZero", "NoForcedSpike", "PintComplete", "MinGap", "Saturated", "PrefixGap", "Monotone", "ViableSound", "Complete"]
 
 
 # --------------------------------------------------------------------------- T
@@ -150,6 +150,8 @@ def _random_input(rng, tgen, shape):
             flat[i] = 1.0
         elif u < 0.55:
             flat[i] = 0.5
+        elif u < 0.62:
+            flat[i] = 1e-12      # positive but with an astronomically long expected interval
     if mode < 0.08:
         flat.zero_()
     elif mode < 0.16:
@@ -386,7 +388,7 @@ def tightness(chk: Check, seed: int, reps: int):
     report = {}
     for kind in ("exp", "bern", "pint"):
         impl = EncoderImpl(dict(base, kind=kind, tick=0.5, seed=seed + 17, r=base["r"] if kind == "exp" else 0))
-        x = torch.cat([torch.ones(1, 120), torch.zeros(1, 8), torch.full((1, 120), 0.5)], 1)
+        x = torch.cat([torch.ones(1, 120), torch.zeros(1, 8), torch.full((1, 120), 0.5), torch.full((1, 8), 1e-12)], 1)
         xid = impl.add_input(x)
         cls = impl.classes(x)
         for online in (False, True):
